@@ -281,6 +281,13 @@ def run_c05(rep, tier):
                             if tier == 'thorough' or (n == nmax and boost):
                                 kw2 = {k: x for k, x in kw.items() if k != 'version'}
                                 extra.append(call('make', c, **kw2))
+    # every cell of the capacity table as the boosting target: content that fills (v, e) exactly, version requested, no level requested
+    for v in range(1, 41):
+        for e in ('M', 'Q', 'H'):
+            mode = ('byte', 'numeric', 'alphanumeric')[(v + 'MQH'.index(e)) % 3]
+            nmax = T.max_chars(v, e, mode)
+            extra.append(call('make', gen.content_for_mode(r, mode, nmax), version=v))
+            extra.append(call('make', gen.content_for_mode(r, mode, nmax - 1), version=v, error='L'))
     # the level may also be given as the integer constant of segno.consts (= the ISO level indicator: L=1, M=0, Q=3, H=2)
     for ind in (1, 0, 3, 2):
         for c in ('12345', 'HELLO WORLD', 'Hello world, hello', gen.latin1(r, 60)):
